@@ -226,7 +226,9 @@ def run_pool(fn, indices, workers=None, hang_s=120, deadline=None, chunk=8):
         return results, errors, skipped
     chunks = [indices[i : i + chunk] for i in range(0, len(indices), chunk)]
     ctx = multiprocessing.get_context("fork")
-    with ProcessPoolExecutor(max_workers=workers, mp_context=ctx) as pool:
+    with ProcessPoolExecutor(
+        max_workers=workers, mp_context=ctx, initializer=start_zygotes
+    ) as pool:
         pending = {}
         it = iter(chunks)
         exhausted = False
@@ -323,3 +325,152 @@ def merge_counts(dst, src):
 class Counter(dict):
     def inc(self, key, n=1):
         self[key] = self.get(key, 0) + n
+
+
+# --------------------------------------------------------------------------
+# pristine processes: every run and every reference evaluation executes in a
+# fork of a "zygote" that has imported the library but never used it, so an
+# outcome is a function of (case, code) alone - never of what the worker
+# process happened to execute before (process-global caches, registries...).
+# --------------------------------------------------------------------------
+import pickle
+import struct
+
+
+def _read_exact(fd, n):
+    chunks = []
+    while n > 0:
+        chunk = os.read(fd, min(n, 1 << 20))
+        if not chunk:
+            raise EOFError
+        chunks.append(chunk)
+        n -= len(chunk)
+    return b"".join(chunks)
+
+
+def _send(fd, obj):
+    data = pickle.dumps(obj, protocol=pickle.HIGHEST_PROTOCOL)
+    data = struct.pack("<Q", len(data)) + data
+    view = memoryview(data)
+    while view:
+        written = os.write(fd, view)
+        view = view[written:]
+
+
+def _recv(fd):
+    (size,) = struct.unpack("<Q", _read_exact(fd, 8))
+    return pickle.loads(_read_exact(fd, size))
+
+
+class Zygote:
+    """A pristine process that forks one child per request."""
+
+    def __init__(self, name, hang_s=170):
+        req_r, req_w = os.pipe()
+        res_r, res_w = os.pipe()
+        pid = os.fork()
+        if pid == 0:
+            os.close(req_w)
+            os.close(res_r)
+            try:
+                self._loop(req_r, res_w, hang_s)
+            finally:
+                os._exit(0)
+        os.close(req_r)
+        os.close(res_w)
+        self.name = name
+        self.req_w, self.res_r, self.pid = req_w, res_r, pid
+
+    @staticmethod
+    def _loop(req_r, res_w, hang_s):
+        import importlib
+
+        while True:
+            try:
+                module, func, args = _recv(req_r)
+            except EOFError:
+                return
+            out_r, out_w = os.pipe()
+            pid = os.fork()
+            if pid == 0:
+                code = 1
+                try:
+                    os.close(out_r)
+                    faulthandler.enable()
+                    faulthandler.dump_traceback_later(hang_s, exit=True)
+                    try:
+                        result = ("ok", getattr(importlib.import_module(module), func)(*args))
+                    except BaseException:  # pylint: disable=broad-except
+                        result = ("err", traceback.format_exc())
+                    _send(out_w, result)
+                    code = 0
+                finally:
+                    os._exit(code)
+            os.close(out_w)
+            try:
+                response = _recv(out_r)
+            except (EOFError, struct.error):
+                response = ("err", f"isolated child {pid} died without answering")
+            os.close(out_r)
+            os.waitpid(pid, 0)
+            _send(res_w, response)
+
+    def call(self, module, func, *args):
+        _send(self.req_w, (module, func, args))
+        try:
+            status, value = _recv(self.res_r)
+        except EOFError:
+            raise HarnessError(f"zygote {self.name} died")
+        if status != "ok":
+            raise HarnessError(f"isolated call {module}.{func} failed:\n{value}")
+        return value
+
+    def close(self):
+        for fd in (self.req_w, self.res_r):
+            try:
+                os.close(fd)
+            except OSError:
+                pass
+
+
+ZYG_REF = None
+ZYG_RUN = None
+PRELOAD = []  # (module, func) run before the zygotes fork; must not use the library
+
+
+def start_zygotes():
+    """(Re)create this process's pair of zygotes.  Must be called before the
+    process uses the library for anything (pool initializer / command start)."""
+    global ZYG_REF, ZYG_RUN
+    if os.environ.get("VERIF_NO_ISOLATION") == "1":
+        return
+    import_statham()
+    import importlib
+
+    for module, func in PRELOAD:
+        getattr(importlib.import_module(module), func)()
+    for old in (ZYG_REF, ZYG_RUN):
+        if old is not None:
+            old.close()  # inherited from the parent: not ours
+    ZYG_REF = Zygote("ref")
+    ZYG_RUN = Zygote("run")  # forked second: its children can reach ZYG_REF
+
+
+def run_isolated(module, func, *args):
+    """Execute module.func(*args) in a pristine process (or inline when
+    isolation is off / not started)."""
+    if ZYG_RUN is None:
+        import importlib
+
+        return getattr(importlib.import_module(module), func)(*args)
+    return ZYG_RUN.call(module, func, *args)
+
+
+def pristine(module, func, *args):
+    """Reference evaluation in a pristine process, callable from inside an
+    isolated run."""
+    if ZYG_REF is None:
+        import importlib
+
+        return getattr(importlib.import_module(module), func)(*args)
+    return ZYG_REF.call(module, func, *args)
